@@ -320,7 +320,7 @@ pub fn run(tier: Tier) -> i32 {
         run_prop(
             &mut run,
             "callers",
-            "numeric and range quantities in any bundled unit (any key) passed to fit / convert(Metric) / convert(Imperial) / try_fraction / convert(to a unit): every fraction in the result (both range ends) obeys the settings units.toml gives for the unit the result is expressed in (enabled, whole limit, denominator limit, accuracy), computed from the file by the harness; non-trivial = the result holds a fraction; distinct = distinct case",
+            "numeric and range quantities in any bundled unit (any key) passed to fit / convert(Metric) / convert(Imperial) / try_fraction / convert(to a unit): every fraction in the result (both range ends) obeys the settings the units files give for the unit the result is expressed in (enabled, whole limit, denominator limit, accuracy), computed from the files by the harness, for units.toml alone and for units.toml plus a second fractions layer with explicit limits at every level; non-trivial = the result holds a fraction; distinct = distinct case",
             caller_strategy,
             tier.pick(150_000, 8_000_000),
             |c: &CallerCase, st| {
@@ -360,41 +360,79 @@ pub struct CallerCase {
     pub target: u16,
 }
 
-/// (enabled, accuracy, max denominator, max whole) per bundled unit symbol, computed from units.toml itself
-/// with the documented inheritance (unit entry <- quantity <- system <- base; missing = defaults)
-static BUNDLED_FRACTIONS: std::sync::LazyLock<Result<Vec<(String, (bool, f32, u8, u32))>, String>> = std::sync::LazyLock::new(|| {
+/// a second fractions layer on top of units.toml: general levels with explicit limits, unit entries stricter
+/// and looser than them
+const FRACTIONS_LAYER: &str = r#"
+[fractions]
+all = { max_whole = 50 }
+imperial = { enabled = true, accuracy = 0.2, max_denominator = 16 }
+metric = { enabled = true, accuracy = 0.1, max_denominator = 2 }
+[fractions.quantity]
+mass = { enabled = true, accuracy = 0.01, max_denominator = 8, max_whole = 20 }
+[fractions.unit]
+tsp = { accuracy = 0.02, max_denominator = 2, max_whole = 5 }
+lb = { max_denominator = 3 }
+kg = { enabled = true, max_denominator = 4 }
+cup = { accuracy = 0.5 }
+ml = { enabled = false }
+"#;
+
+type FracTable = Vec<(String, (bool, f32, u8, u32))>;
+
+/// (converter, (enabled, accuracy, max denominator, max whole) per unit symbol) for units.toml alone and for
+/// units.toml + FRACTIONS_LAYER. The settings are computed from the files with the documented layering: the
+/// general levels (base, per system, per quantity) of a later file replace those of an earlier one; a unit
+/// entry (the last one naming the unit) fills what it leaves unset from the final quantity, system and base
+/// levels in that order; a unit without an entry uses the first of quantity, system, base that is set.
+static CONFIGS: std::sync::LazyLock<Result<Vec<(cooklang::Converter, FracTable)>, String>> = std::sync::LazyLock::new(|| {
     let text = std::fs::read_to_string(repo_dir().join("units.toml")).map_err(|e| format!("cannot read units.toml: {e}"))?;
-    let uf: UnitsFile = toml::from_str(&text).map_err(|e| format!("units.toml: {e}"))?;
-    let fr = uf.fractions.unwrap_or_default();
-    type H = cooklang::convert::units_file::FractionsConfigHelper;
-    let merge = |a: H, b: H| H { enabled: a.enabled.or(b.enabled), accuracy: a.accuracy.or(b.accuracy), max_denominator: a.max_denominator.or(b.max_denominator), max_whole: a.max_whole.or(b.max_whole) };
-    let define = |h: H| (h.enabled.unwrap_or(false), h.accuracy.unwrap_or(0.05).clamp(0.0, 1.0), h.max_denominator.unwrap_or(4).clamp(1, 16), h.max_whole.unwrap_or(u32::MAX));
     let mut out = vec![];
-    for u in BUNDLED.all_units() {
-        let general: Vec<H> = [
-            fr.quantity.get(&u.physical_quantity).map(|c| c.get()),
-            u.system.and_then(|s| match s {
-                System::Metric => fr.metric.map(|c| c.get()),
-                System::Imperial => fr.imperial.map(|c| c.get()),
-            }),
-            fr.all.map(|c| c.get()),
-        ]
-        .into_iter()
-        .flatten()
-        .collect();
-        let own = fr.unit.iter().find(|(k, _)| BUNDLED.find_unit(k).is_some_and(|f| *f == *u)).map(|(_, c)| c.get());
-        let cfg = match own {
-            Some(c) => define(general.iter().fold(c, |acc, g| merge(acc, *g))),
-            None => define(general.first().copied().unwrap_or_default()),
-        };
-        out.push((u.symbol().to_string(), cfg));
+    for layered in [false, true] {
+        let mut files: Vec<UnitsFile> = vec![toml::from_str(&text).map_err(|e| format!("units.toml: {e}"))?];
+        if layered {
+            files.push(toml::from_str(FRACTIONS_LAYER).map_err(|e| format!("fractions layer: {e}"))?);
+        }
+        let mut b = cooklang::convert::ConverterBuilder::new();
+        for f in files.clone() {
+            b.add_units_file(f).map_err(|e| format!("the builder rejects the fractions layer: {e}"))?;
+        }
+        let conv = b.finish().map_err(|e| format!("the builder rejects the fractions layer: {e}"))?;
+        type H = cooklang::convert::units_file::FractionsConfigHelper;
+        let merge = |a: H, b: H| H { enabled: a.enabled.or(b.enabled), accuracy: a.accuracy.or(b.accuracy), max_denominator: a.max_denominator.or(b.max_denominator), max_whole: a.max_whole.or(b.max_whole) };
+        let define = |h: H| (h.enabled.unwrap_or(false), h.accuracy.unwrap_or(0.05).clamp(0.0, 1.0), h.max_denominator.unwrap_or(4).clamp(1, 16), h.max_whole.unwrap_or(u32::MAX));
+        let layers: Vec<cooklang::convert::units_file::Fractions> = files.into_iter().filter_map(|f| f.fractions).collect();
+        let last = |pick: &dyn Fn(&cooklang::convert::units_file::Fractions) -> Option<H>| layers.iter().rev().find_map(|l| pick(l));
+        let mut table = vec![];
+        for u in conv.all_units() {
+            let general: Vec<H> = [
+                last(&|l| l.quantity.get(&u.physical_quantity).map(|c| c.get())),
+                u.system.and_then(|s| match s {
+                    System::Metric => last(&|l| l.metric.map(|c| c.get())),
+                    System::Imperial => last(&|l| l.imperial.map(|c| c.get())),
+                }),
+                last(&|l| l.all.map(|c| c.get())),
+            ]
+            .into_iter()
+            .flatten()
+            .collect();
+            let own = layers.iter().rev().find_map(|l| l.unit.iter().find(|(k, _)| conv.find_unit(k).is_some_and(|f| *f == *u)).map(|(_, c)| c.get()));
+            let cfg = match own {
+                Some(c) => define(general.iter().fold(c, |acc, g| merge(acc, *g))),
+                None => define(general.first().copied().unwrap_or_default()),
+            };
+            table.push((u.symbol().to_string(), cfg));
+        }
+        out.push((conv, table));
     }
     Ok(out)
 });
 
 fn check_caller(c: &CallerCase, st: &mut Stats) -> Verdict {
-    let table = BUNDLED_FRACTIONS.as_ref().map_err(|e| Violation::new("c12.infrastructure", e.clone()))?;
-    let units: Vec<_> = BUNDLED.all_units().collect();
+    let configs = CONFIGS.as_ref().map_err(|e| Violation::new("c12.infrastructure", e.clone()))?;
+    // odd targets use the layered configuration
+    let (conv, table) = &configs[(c.target as usize / 7) % 2];
+    let layered = (c.target as usize / 7) % 2 == 1;
+    let units: Vec<_> = conv.all_units().collect();
     let u = units[c.unit as usize % units.len()];
     let keys: Vec<String> = u.names.iter().chain(&u.symbols).chain(&u.aliases).map(|k| k.to_string()).collect();
     let key = &keys[c.key as usize % keys.len()];
@@ -408,18 +446,19 @@ fn check_caller(c: &CallerCase, st: &mut Stats) -> Verdict {
     let target = units[c.target as usize % units.len()].symbol().to_string();
     let what = ["fit()", "convert(Metric)", "convert(Imperial)", "try_fraction()", "convert(unit)"][c.op as usize % 5];
     let r = guard(|| match c.op % 5 {
-        0 => q.fit(&BUNDLED).is_ok(),
-        1 => q.convert(System::Metric, &BUNDLED).is_ok(),
-        2 => q.convert(System::Imperial, &BUNDLED).is_ok(),
-        3 => q.try_fraction(&BUNDLED),
-        _ => q.convert(target.as_str(), &BUNDLED).is_ok(),
+        0 => q.fit(conv).is_ok(),
+        1 => q.convert(System::Metric, conv).is_ok(),
+        2 => q.convert(System::Imperial, conv).is_ok(),
+        3 => q.try_fraction(conv),
+        _ => q.convert(target.as_str(), conv).is_ok(),
     });
     if let Err(p) = r {
         vbail!("c12.panic", "{before:?}.{what} panicked: {p}");
     }
-    let Some(ru) = q.unit().and_then(|k| BUNDLED.find_unit(k)) else {
+    let Some(ru) = q.unit().and_then(|k| conv.find_unit(k)) else {
         return Ok(());
     };
+    st.class_if(layered, "units.toml + a second fractions layer");
     let Some((_, (enabled, acc, max_den, max_whole))) = table.iter().find(|(sym, _)| sym == ru.symbol()) else {
         vbail!("c12.infrastructure", "unit {ru} not in the fraction table");
     };
@@ -436,7 +475,7 @@ fn check_caller(c: &CallerCase, st: &mut Stats) -> Verdict {
             st.class("fraction in the result");
             st.class_if(ru.symbol() != u.symbol(), "fraction in another unit than the input");
             let v = n.value();
-            let ctx = format!("{before:?}.{what} gave {q:?}; the units file gives `{}` enabled={enabled} accuracy={acc} max_denominator={max_den} max_whole={max_whole}", ru.symbol());
+            let ctx = format!("{}{before:?}.{what} gave {q:?}; the units file gives `{}` enabled={enabled} accuracy={acc} max_denominator={max_den} max_whole={max_whole}", if layered { "[units.toml + fractions layer] " } else { "" }, ru.symbol());
             vensure!(*enabled, "c12.caller-fraction-where-disabled", "{which} is a fraction although fractions are disabled for the result unit: {ctx}");
             vensure!(whole <= *max_whole, "c12.caller-whole-above-limit", "{which}: whole part {whole} above the limit of the result unit: {ctx}");
             if num != 0 {
